@@ -36,7 +36,7 @@ def units(tier, seed):
     us.append(('builtins', 1))
     for i in range(4):
         us.append(('textargs', i))
-    for i in range(16 if tier == 'quick' else 320):
+    for i in range(32 if tier == 'quick' else 320):
         us.append(('programs', i))
     return us
 
